@@ -268,9 +268,23 @@ def _report_cex(rep, job, g, case, res, known):
             return
     if any(v['key'] == key for v in rep.violations) and len(rep.violations) >= 3:
         return
+    # 7.3 step 3: the same judgement on a state re-created by public calls only
+    via_public = None
+    try:
+        from . import concrete
+        hmod = importlib.import_module(job.mod)
+        concrete.PUBLIC_MODE, concrete.LAST_PUBLIC = True, None
+        res2 = hmod.replay(case)
+        if concrete.LAST_PUBLIC:
+            via_public = bool(res2.get('violates'))
+    except Exception:
+        via_public = None
+    finally:
+        concrete.PUBLIC_MODE = False
+    res = dict(res, reproduced_on_state_built_by_public_calls=via_public)
     path = _replay_file(rep.pid, case, res)
     rep.violations.append(dict(key=key, detail=res.get('detail'), replay=path,
-                               harness=job.label, goal=g['name']))
+                               harness=job.label, goal=g['name'], via_public=via_public))
 
 
 def finish(rep, level_text=''):
@@ -311,7 +325,10 @@ def finish(rep, level_text=''):
         print(f'KNOWN-FINDING: property={rep.pid} {key}: {what}')
     for v in rep.violations:
         print(f'VIOLATION property={rep.pid} replay={v["replay"]}')
-        print(f'  {v["key"]}: {v["detail"]} [{v["harness"]} goal {v["goal"]}]')
+        pub = {True: ' [also reproduced on a state re-created through public calls only]',
+               False: ' [NOT reproduced on the state re-created through public calls]',
+               None: ''}[v.get('via_public')]
+        print(f'  {v["key"]}: {v["detail"]} [{v["harness"]} goal {v["goal"]}]{pub}')
     t = rep.totals
     print(f'[{rep.pid} {rep.tier}] paths={t["paths"]} queries={t["queries"]} goals={t["goals"]} '
           f'unsat={t["proved"]} sat={t["sat"]} unknown={t["unknown"]} validated={t["validated"]} '
